@@ -134,7 +134,8 @@ static std::string kindOf(const std::string& what)
     {"response has both Content-Length and Transfer-Encoding", "clAndTe"}, {"invalid Content-Length", "badCL"},
     {"conflicting Content-Length list", "clList"}, {"empty Content-Length", "emptyCL"},
     {"Content-Length exceeds the response cap", "clTooBig"}, {"malformed chunked response body", "chunk"},
-    {"HTTP response exceeded the configured response cap", "cap"}};
+    {"HTTP response exceeded the configured response cap", "cap"},
+    {"HTTP response exceeded the sync receive buffer", "overflow"}};
   for (const auto& e : table)
     if (what.compare(0, std::strlen(e.first), e.first) == 0) return e.second;
   return "unknown-message";
@@ -150,8 +151,9 @@ static std::string demangled(const std::exception& e)
 }
 
 // ---------------------------------------------------------------------------------------------- watchdog
-// A framing call that does not return within 2 s is the answer `hang` (the process then exits; the runner restarts
-// the harness at the next case).
+// A framing call that burns more than 5 s of CPU time (ITIMER_PROF: a stalled or overloaded machine does not count) or
+// does not return within 60 s of wall clock is the answer `hang` (the process then exits; the runner restarts the harness at
+// the next case and the plugin re-runs the case alone before it reports anything).
 static void onAlarm(int)
 {
   const char m[] = "hang\n";
@@ -163,13 +165,17 @@ struct Watchdog
   Watchdog()
   {
     std::fflush(stdout);
-    itimerval t{};
-    t.it_value.tv_sec = 2;
-    setitimer(ITIMER_REAL, &t, nullptr);
+    itimerval c{};
+    c.it_value.tv_sec = 5;
+    setitimer(ITIMER_PROF, &c, nullptr);
+    itimerval w{};
+    w.it_value.tv_sec = 60;
+    setitimer(ITIMER_REAL, &w, nullptr);
   }
   ~Watchdog()
   {
     itimerval t{};
+    setitimer(ITIMER_PROF, &t, nullptr);
     setitimer(ITIMER_REAL, &t, nullptr);
   }
 };
@@ -268,6 +274,135 @@ struct Cl
     return "closedEarly";
   }
 };
+
+// ---------------------------------------------------------------------------------------------- the real executeRequest
+// `xr`: HttpClient::executeRequest itself (private, reached with `#define private public`) runs on a worker thread against a
+// Transport whose engine is scripted; this thread plays the engine's I/O thread and delivers the next scripted receiveSync
+// result (data / peer close / timeout / overflow / shutting down / other error) only when the client is parked in
+// receiveSync with an empty buffer, so every scripted read is seen exactly as scripted (in pieces of sizeof(buffer) bytes
+// when it is longer).  Everything of executeRequest is real: effectiveCap, the loop arms, the frameResponse arguments, the
+// reuse decision after the loop and the catch-all eviction.
+struct XrEngine : vh::FakeEngine
+{
+  std::atomic<SessionId> pending{0};
+  std::atomic<int> closes{0};
+  ConnectResult connect(const std::string&, std::uint16_t, TlsMode) override
+  {
+    SessionId s = next++;
+    pending.store(s);
+    return ConnectResult::ok(s);
+  }
+  bool close(SessionId) override { ++closes; return true; }
+};
+
+static std::string failOf(const std::string& what)
+{
+  if (what.compare(0, 21, "HTTP response timeout") == 0) return "timeout";
+  if (what.compare(0, 28, "HTTP transport shutting down") == 0) return "shuttingDown";
+  if (what.compare(0, 33, "Connection closed before receivin") == 0) return "closedEarly";
+  return "other-message";
+}
+
+static std::string xr(const std::string& method, std::size_t maxResp, std::size_t jsonMax, bool reuse,
+                      const std::vector<std::string>& script)
+{
+  bool hasTimeout = std::find(script.begin(), script.end(), "t") != script.end();
+  HttpClient::Config cfg;
+  cfg.maxResponseBytes = maxResp;
+  cfg.jsonConfig.maxPayloadSize = jsonMax;
+  cfg.reuseConnections = reuse;
+  cfg.requestTimeout = std::chrono::milliseconds(hasTimeout ? 300 : 4000);
+  cfg.connectTimeout = std::chrono::milliseconds(20000);
+  auto engOwner = std::make_unique<XrEngine>();
+  XrEngine* eng = engOwner.get();
+  TransportConfig tc;
+  tc.protocol = Protocol::TCP;
+  tc.maxSyncReceiveBuffer = 65536;
+  std::string result;
+  std::atomic<bool> done{false};
+  {
+    HttpClient client(cfg);
+    client._transport = iora::network::test::TransportEngineInjector::withEngine(std::move(engOwner), tc);
+    auto* impl = client._transport->_impl.get();
+    std::thread worker([&]() {
+      try
+      {
+        auto r = client.executeRequest(method, "http://127.0.0.1:8080/x", "", {});
+        result = "response " + showResp(r);
+      }
+      catch (const HttpFramingError& e) { result = "error " + kindOf(e.what()); }
+      catch (const HttpRequestNotSentError&) { result = "fail notSent"; }
+      catch (const std::runtime_error& e) { result = "fail " + failOf(e.what()); }
+      catch (const std::exception& e) { result = "throw " + demangled(e); }
+      catch (...) { result = "throw unknown"; }
+      done = true;
+    });
+    auto t0 = std::chrono::steady_clock::now();
+    auto late = [&]() { return std::chrono::steady_clock::now() - t0 > std::chrono::seconds(60); };
+    auto nap = []() { std::this_thread::sleep_for(std::chrono::microseconds(20)); };
+    while (!done && eng->pending.load() == 0 && !late()) nap();
+    SessionId sid = eng->pending.load();
+    if (!done && sid != 0) eng->cbs.onConnect(sid, TransportAddress{"127.0.0.1", 8080});
+    auto parked = [&]() {
+      std::lock_guard<std::mutex> lk(impl->syncMutex);
+      auto it = impl->receiveBuffers.find(sid);
+      return it != impl->receiveBuffers.end() && it->second->waiters == 1 && it->second->data.empty();
+    };
+    for (std::size_t i = 0; i < script.size() && !done; ++i)
+    {
+      while (!done && !parked() && !late()) nap();
+      if (done || late()) break;
+      const std::string& e = script[i];
+      if (e.size() >= 2 && e[0] == 'd' && e[1] == ':')
+      {
+        Bytes d;
+        vh::ofHex(e.substr(2), d);
+        if (i + 1 < script.size() && script[i + 1] == "e")
+        {
+          // the next receiveSync call fails with an error code that has no arm of its own (Cancelled)
+          std::lock_guard<std::mutex> lk(impl->syncMutex);
+          auto it = impl->receiveBuffers.find(sid);
+          if (it != impl->receiveBuffers.end()) it->second->flushing = true;
+        }
+        if (!d.empty()) eng->cbs.onData(sid, iora::core::BufferView(d.data(), d.size()), std::chrono::steady_clock::now());
+      }
+      else if (e == "c")
+        eng->cbs.onClose(sid, TransportErrorInfo{TransportError::PeerClosed, "peer closed"});
+      else if (e == "o")
+      {
+        Bytes big(tc.maxSyncReceiveBuffer + 1, 0x2e);
+        eng->cbs.onData(sid, iora::core::BufferView(big.data(), big.size()), std::chrono::steady_clock::now());
+      }
+      else if (e == "s")
+      {
+        std::lock_guard<std::mutex> lk(impl->syncMutex);
+        impl->shuttingDown = true;
+        auto it = impl->receiveBuffers.find(sid);
+        if (it != impl->receiveBuffers.end()) it->second->cv.notify_all();
+      }
+      else if (e == "t" || e == "e")
+      {
+        if (e == "t") while (!done && !late()) nap();
+      }
+    }
+    while (!done && !late()) nap();
+    if (!done)
+    {
+      const char m[] = "hang\n";
+      (void)!write(1, m, sizeof(m) - 1);
+      _exit(97);
+    }
+    worker.join();
+    {
+      // leave the transport in a state its destructor accepts
+      std::lock_guard<std::mutex> lk(impl->syncMutex);
+      impl->shuttingDown = false;
+      for (auto& kv : impl->receiveBuffers) kv.second->flushing = false;
+    }
+    result += std::string(" closed=") + (eng->closes.load() > 0 ? "1" : "0");
+  }
+  return result;
+}
 
 // ---------------------------------------------------------------------------------------------- server side
 struct Srv
@@ -414,6 +549,7 @@ int main()
 {
   iora::core::Logger::setLevel(iora::core::Logger::Level::Fatal);
   signal(SIGALRM, onAlarm);
+  signal(SIGPROF, onAlarm);
   Cl cl;
   Srv srv;
   int rc = vh::runLines([&](const std::vector<std::string>& t) -> std::string {
@@ -427,6 +563,10 @@ int main()
       }
       if (t.size() == 3 && t[0] == "cl" && t[1] == "feed" && vh::ofHex(t[2], d)) return cl.feed(d);
       if (t.size() == 2 && t[0] == "cl" && t[1] == "close") return cl.peerClosed();
+      if (t.size() >= 5 && t[0] == "xr" && vh::ofHex(t[1], m) && vh::parseNat(t[2], n) && vh::parseNat(t[3], k) &&
+          (t[4] == "0" || t[4] == "1"))
+        return xr(str(m), static_cast<std::size_t>(n), static_cast<std::size_t>(k), t[4] == "1",
+                  std::vector<std::string>(t.begin() + 5, t.end()));
       if (t.size() == 2 && t[0] == "pcl" && vh::ofHex(t[1], d))
       {
         try { return "ok " + std::to_string(cl.client.parseContentLength(str(d))); }
